@@ -70,12 +70,16 @@ def gen_ctx(rng):
         if r < 0.5:
             good = [t for t, m in POOL[kind] if m is not None]; bad = [t for t, m in POOL[kind] if m is None]
             dflt = rng.choice(bad) if (bad and rng.random() < 0.15) else rng.choice(good)
-        opts.append({"name": n, "kind": kind, "props": props, "impl": impl, "dflt": dflt})
+        # description level of the option / its group: only help output may depend on them (C15-n)
+        lvl = rng.choice([1, 2, 3, 5]) if rng.random() < 0.3 else 0
+        grp = rng.randint(0, 2)
+        glvl = rng.choice([1, 2, 5]) if grp and rng.random() < 0.3 else 0
+        opts.append({"name": n, "kind": kind, "props": props, "impl": impl, "dflt": dflt, "lvl": lvl, "grp": grp, "glvl": glvl})
     return opts
 
 def opt_tok(o):
     f = lambda x: "~" if x is None else hexs(x)
-    return "o:%s:0:%s:%s:%s:~:~:0:0:%d" % (hexs(o["name"]), o["props"], f(o["impl"]), f(o["dflt"]), o["kind"])
+    return "o:%s:0:%s:%s:%s:~:~:%d:%d:%d:%d" % (hexs(o["name"]), o["props"], f(o["impl"]), f(o["dflt"]), o.get("lvl", 0), o.get("grp", 0), o["kind"], o.get("glvl", 0))
 
 def gen_case(rng, wild):
     opts = gen_ctx(rng)
@@ -111,6 +115,8 @@ def corpus(ctx):
     return [
         {"opts": [o(b"num", 0, dflt=b"42"), o(b"vec", 3, "c")], "steps": [("A", None, [(0, b"12"), (1, b"1,2")]), ("A", None, [(0, b"5"), (1, b"[3]")]), ("D",)]},
         {"opts": [o(b"num", 0), o(b"flag", 2, "f")], "steps": [("A", None, [(0, b"1"), (1, b""), (0, b"2")]), ("D",)]},
+        # defaults reach options of every description level and of hidden groups (C15-n)
+        {"opts": [dict(o(b"num", 0, dflt=b"7"), lvl=2), dict(o(b"x", 0, dflt=b"3"), grp=1, glvl=5), o(b"quiet", 2, "f", dflt=b"yes")], "steps": [("A", None, [(2, b"no")]), ("D",)]},
         {"opts": [o(b"num", 0, dflt=b"abc"), o(b"s", 1, "i", b"impl", b"d")], "steps": [("A", [b"s"], [(1, b"x")]), ("D",), ("D",)]},
         {"opts": [o(b"a", 8), o(b"b", 5, dflt=b"3"), o(b"c", 6, dflt=b"Maybe"), o(b"d", 7, "f"), o(b"e", 4, "c")],
          "steps": [("A", None, [(0, b"-7"), (4, b"a"), (4, b"x")]), ("A", [], [(0, b"12"), (3, b""), (4, b"hello world")]), ("D",)]},
@@ -198,11 +204,13 @@ def parse_out(s):
 
 def to_json(c):
     h = lambda b: None if b is None else b.hex()
-    return {"j": 1, "opts": [{"name": h(o["name"]), "kind": o["kind"], "props": o["props"], "impl": h(o["impl"]), "dflt": h(o["dflt"])} for o in c["opts"]],
+    return {"j": 1, "opts": [{"name": h(o["name"]), "kind": o["kind"], "props": o["props"], "impl": h(o["impl"]), "dflt": h(o["dflt"]),
+                               "lvl": o.get("lvl", 0), "grp": o.get("grp", 0), "glvl": o.get("glvl", 0)} for o in c["opts"]],
             "steps": [["D"] if st[0] == "D" else ["A", None if st[1] is None else [h(n) for n in st[1]], [[k, h(v)] for k, v in st[2]]] for st in c["steps"]], "line": line_of(c)}
 def from_json(j):
     u = lambda x: None if x is None else bytes.fromhex(x)
-    return {"opts": [{"name": u(o["name"]), "kind": o["kind"], "props": o["props"], "impl": u(o["impl"]), "dflt": u(o["dflt"])} for o in j["opts"]],
+    return {"opts": [{"name": u(o["name"]), "kind": o["kind"], "props": o["props"], "impl": u(o["impl"]), "dflt": u(o["dflt"]),
+                      "lvl": o.get("lvl", 0), "grp": o.get("grp", 0), "glvl": o.get("glvl", 0)} for o in j["opts"]],
             "steps": [("D",) if st[0] == "D" else ("A", None if st[1] is None else [u(n) for n in st[1]], [(k, u(v)) for k, v in st[2]]) for st in j["steps"]]}
 
 def evaluate(ctx, cases):
